@@ -60,9 +60,35 @@ def refactor_table():
         rows.append("| %s | %s | %s | %s |" % (k, ", ".join(f.split("/")[-1] for f in v["files"]), " ".join("%s:%s" % (p, c["exit"]) for p, c in v["checks"].items()), ("**ALARM in %s**" % ",".join(alarms)) if alarms else ("all re-proved" if not und else "some undecided (printed as UNDECIDED, exit 0)")))
     return "\n".join(rows)
 
+def coverage_table():
+    """per source file: which functions have their body verified, which appear only with an assumed contract (R-EXT), which are not
+    under contract at all (bounded only) -- from the generator itself, on the current /repo"""
+    import gen, subprocess
+    units = sorted(set(u for c in config.PROPS.values() for u in c["units"]))
+    verified, ext = {}, {}
+    for u in units:
+        g, _ = gen.generate(os.path.join(HERE, "units", u + ".vrs"))
+        extsites = set(x["what"] for x in g.trusted if x.get("kind") == "R-EXT")
+        for site in g.functions:
+            f, key = site.split("::", 1)
+            key = key.split("#closure")[0] + (" (closure)" if "#closure" in site else "")
+            (ext if site in extsites else verified).setdefault(f, set()).add(key.replace("|", "\\|"))
+    files = sorted(set(list(verified) + list(ext) + ["eyeball-im-util/src/vector/sort.rs", "eyeball-im/src/reusable_box.rs"]))
+    rows = ["| file | functions (and lifted closures) whose body is verified | only as assumed contract (R-EXT / caller view) | other fns of the file: not under contract (bounded / Kani / trusted) |", "|---|---|---|---|"]
+    for f in files:
+        out = subprocess.run([gen.EXTRACT_BIN, os.path.join(gen.REPO, f)], capture_output=True, text=True).stdout
+        allf = [it["key"] for it in json.loads(out)[0]["items"] if it["kind"] == "fn" and it.get("body") and "test" not in it["key"] and "fmt" != it["key"].split("::")[-1]]
+        v = verified.get(f, set())
+        vb = set(x.replace(" (closure)", "") for x in v)
+        e = set(x for x in ext.get(f, set()) if x not in vb)
+        rest = [k for k in allf if k.replace("|", "\\|") not in vb and k.replace("|", "\\|") not in e]
+        short = lambda k: k.split("::")[-1] if "::" in k else k
+        rows.append("| %s | %d: %s | %s | %s |" % (f.replace("src/", ""), len(v), ", ".join(sorted(set(short(x) for x in v))), ", ".join(sorted(set(short(x) for x in e))) or "—", ", ".join(sorted(set(short(x) for x in rest))) or "—"))
+    return "\n".join(rows)
+
 p = os.path.join(HERE, "DESIGN.md")
 s = open(p).read()
-for tag, fn in (("STATUS", status_table), ("SEEDS", seeds_table), ("MUTATION", mutation_table), ("REFACTORS", refactor_table)):
+for tag, fn in (("COVERAGE", coverage_table), ("STATUS", status_table), ("SEEDS", seeds_table), ("MUTATION", mutation_table), ("REFACTORS", refactor_table)):
     a = "<!-- BEGIN:%s -->" % tag
     b = "<!-- END:%s -->" % tag
     if a in s and b in s:
